@@ -523,9 +523,12 @@ def apply_op(hist, op, idx, **kw):
             t = round(max(hist.disk.last, hist.epoch + hist.disk.now) + 10 * 365 * 86400.0, 6)
             hist.disk.data[name] = (v, t)
             hist.disk.last = t
-            alias = hist.world["stores"].get(name, {})
-            if alias.get("feeds") and alias.get("alias") and alias["feeds"] in hist.disk.data:
-                hist.disk.data[alias["feeds"]] = (hist.disk.data[alias["feeds"]][0], t)
+            sd = hist.world["stores"].get(name, {})
+            if sd.get("feeds") and sd["feeds"] in hist.disk.data:
+                # what this store's write fed was written with it: the same instant for an alias, just after otherwise
+                t2 = t if sd.get("alias") else round(t + hist.disk.tickv, 6)
+                hist.disk.data[sd["feeds"]] = (hist.disk.data[sd["feeds"]][0], t2)
+                hist.disk.last = max(hist.disk.last, t2)
     elif k == "fresh_at":
         # fresh_time := exactly the modified time of one stored value (a tie: that value is not "older than" fresh_time)
         t = hist.disk.mtime(op["store"])
